@@ -64,6 +64,7 @@ type FuncContract struct {
 	atSet     map[string][]specLine // site -> `name = expr` updates of user ghost variables
 	takes     map[string]bool
 	condTakes map[string]bool
+	acceptsShared map[string]bool
 	ownPrimitive bool
 	freshOnly bool
 	borrows   map[string]bool
@@ -302,7 +303,7 @@ func (a *Annotations) parseFile(path, pkg string) error {
 }
 
 func newFuncContract(pkg, key, file string, line int) *FuncContract {
-	return &FuncContract{pkg: pkg, key: key, nullable: map[string]bool{}, loopInv: map[int][]specLine{}, loopMod: map[int][]string{}, loopComplete: map[int]bool{}, at: map[string][]specLine{}, atAssume: map[string][]specLine{}, atBefore: map[string][]specLine{}, atSet: map[string][]specLine{}, takes: map[string]bool{}, condTakes: map[string]bool{}, borrows: map[string]bool{}, file: file, line: line}
+	return &FuncContract{pkg: pkg, key: key, nullable: map[string]bool{}, loopInv: map[int][]specLine{}, loopMod: map[int][]string{}, loopComplete: map[int]bool{}, at: map[string][]specLine{}, atAssume: map[string][]specLine{}, atBefore: map[string][]specLine{}, atSet: map[string][]specLine{}, takes: map[string]bool{}, condTakes: map[string]bool{}, acceptsShared: map[string]bool{}, borrows: map[string]bool{}, file: file, line: line}
 }
 
 func splitWord(s string) (string, string) {
@@ -467,6 +468,11 @@ func (a *Annotations) funcClause(cf *FuncContract, word, rest string, sl specLin
 	case "borrows":
 		for _, p := range strings.Fields(rest) {
 			cf.borrows[p] = true
+		}
+	case "accepts_shared":
+		// the function promises to cope with a message that is shared (Clone'd) by its caller
+		for _, p := range strings.Fields(rest) {
+			cf.acceptsShared[p] = true
 		}
 	case "own_primitive":
 		cf.ownPrimitive = true
